@@ -16,6 +16,17 @@ IT = 'std::iter::Iterator::'
 SAME = {IT + 'rev', IT + 'peekable', IT + 'by_ref', IT + 'fuse', IT + 'cloned', IT + 'copied', IT + 'inspect',
         'std::iter::DoubleEndedIterator::rev'}
 FEWER = {IT + 'filter', IT + 'take', IT + 'skip', IT + 'take_while', IT + 'skip_while', IT + 'step_by'}
+# adapters that drop elements by *position* (everything after / before some point), not by a per-element test: the
+# `filtered` flag of alts() is the string 'trunc' for them (still truthy), and closures of earlier stages do not run for
+# every element when a later stage stops pulling
+TRUNCATING = {IT + 'take', IT + 'skip', IT + 'take_while', IT + 'skip_while', IT + 'step_by', IT + 'map_while', IT + 'scan'}
+STOPS_EARLY = {IT + 'take', IT + 'take_while', IT + 'map_while', IT + 'scan'}
+
+
+def _fl(*flags):
+    if 'trunc' in flags:
+        return 'trunc'
+    return any(flags)
 # calls producing an iterator over their first argument's elements
 SOURCES_RX = ('::iter', '::iter_mut', '::into_iter', '::drain', '::values', '::into_values', '::into_keys', '::keys')
 SAME_ELEMS = ('::iter', '::iter_mut', '::into_iter', '::drain')
@@ -69,7 +80,7 @@ def alts(sl, v, depth=0):
         if name in SAME:
             return alts(sl, args[0], depth + 1)
         if name in FEWER:
-            return [(e, f, True) for e, f, _ in alts(sl, args[0], depth + 1)]
+            return [(e, f, _fl(fl, 'trunc' if name in TRUNCATING else True)) for e, f, fl in alts(sl, args[0], depth + 1)]
         if name == IT + 'enumerate':
             return [(('tuple', (('unknown', 'index'), e)), f, fl) for e, f, fl in alts(sl, args[0], depth + 1)]
         if name == IT + 'zip' and len(args) == 2:
@@ -86,7 +97,8 @@ def alts(sl, v, depth=0):
             out = []
             for e, f, fl in alts(sl, args[0], depth + 1):
                 r = sl.apply_closure(args[1], (e,))
-                out.append((('unwrap', r) if r is not None else ('unknown', 'filter_map'), f, True))
+                out.append((('unwrap', r) if r is not None else ('unknown', 'filter_map'), f,
+                            _fl(fl, 'trunc' if name in TRUNCATING else True)))
             return out
         if name == IT + 'flat_map' and len(args) == 2:
             out = []
@@ -95,13 +107,13 @@ def alts(sl, v, depth=0):
                 if r is None:
                     return [(elem_of(v), v, False)]
                 for e2, f2, fl2 in alts(sl, r, depth + 1):
-                    out.append((e2, f if f is not None else f2, fl or fl2 or (f is not None and f2 is not None)))
+                    out.append((e2, f if f is not None else f2, _fl(fl, fl2, f is not None and f2 is not None)))
             return out
         if name == IT + 'flatten' and len(args) == 1:
             out = []
             for e, f, fl in alts(sl, args[0], depth + 1):
                 for e2, f2, fl2 in alts(sl, e, depth + 1):
-                    out.append((e2, f if f is not None else f2, fl or fl2))
+                    out.append((e2, f if f is not None else f2, _fl(fl, fl2)))
             return out
         if name in COLLECTING:
             return alts(sl, args[0], depth + 1)
@@ -117,22 +129,27 @@ def trivial(al, v):
     return len(al) == 1 and al[0][1] is not None and canon(al[0][1]) == canon(v) and not al[0][2]
 
 
-def stages(v, depth=0):
+def stages(v, depth=0, _stopped=False, with_stop=False):
     """closures of the lazy adapter stages of an iterator expression, innermost first:
-    [(adapter name, closure value, receiver value)]"""
+    [(adapter name, closure value, receiver value)]; with_stop=True adds a 4th component: does a *later* stage stop
+    pulling early (take / take_while / map_while / scan), so that this stage's closure does not see every element"""
     out = []
+    stopped = _stopped
     while depth < 12 and isinstance(v, tuple) and v and v[0] == 'call' and v[2]:
         name, args = v[1], v[2]
         if name in LAZY_WITH_CLOSURE and len(args) == 2:
-            out.append((name, args[1], args[0]))
+            # the closure of a stopping adapter itself runs until it says stop: it does not see every element either
+            out.append((name, args[1], args[0], stopped or name in STOPS_EARLY))
+            stopped = stopped or name in STOPS_EARLY
             v = args[0]
         elif name in SAME or name in FEWER or name in COLLECTING or name == IT + 'enumerate' or _is_source(name):
+            stopped = stopped or name in STOPS_EARLY
             v = args[0]
         elif name == IT + 'chain' and len(args) == 2:
-            out.extend(stages(args[1], depth + 1))
+            out.extend(reversed(stages(args[1], depth + 1, stopped, True)))
             v = args[0]
         else:
             break
         depth += 1
     out.reverse()
-    return out
+    return out if with_stop else [x[:3] for x in out]
